@@ -23,6 +23,65 @@ use trippy_core::{
 };
 use trippy_tui::verif::{build_config, install, run_app_scripted, Args, ConfigFile, GeoIpLookup, Step, TraceInfo, TuiApp, TuiConfig};
 
+/// Watchdog state: a draw or command that makes no progress for VT_HANG_SECS seconds ends the process with
+/// exit code 3 after writing `<out>.hang` (the driver re-runs the batch without that scenario and reports it).
+static PROGRESS: std::sync::atomic::AtomicU64 = std::sync::atomic::AtomicU64::new(0);
+static CUR_SC: std::sync::atomic::AtomicUsize = std::sync::atomic::AtomicUsize::new(usize::MAX);
+static CUR_W: std::sync::atomic::AtomicU64 = std::sync::atomic::AtomicU64::new(0);
+static CUR_H: std::sync::atomic::AtomicU64 = std::sync::atomic::AtomicU64::new(0);
+static CUR_FRAMES: std::sync::atomic::AtomicU64 = std::sync::atomic::AtomicU64::new(0);
+
+fn tick_progress() {
+    PROGRESS.fetch_add(1, std::sync::atomic::Ordering::Relaxed);
+}
+
+fn start_watchdog(out: &str) {
+    use std::sync::atomic::Ordering::Relaxed;
+    let path = format!("{out}.hang");
+    let _ = std::fs::remove_file(&path);
+    let secs: u64 = std::env::var("VT_HANG_SECS").ok().and_then(|s| s.parse().ok()).unwrap_or(30);
+    std::thread::spawn(move || {
+        let mut last = PROGRESS.load(Relaxed);
+        let mut idle = 0u64;
+        loop {
+            std::thread::sleep(Duration::from_secs(1));
+            let now = PROGRESS.load(Relaxed);
+            if now != last || CUR_SC.load(Relaxed) == usize::MAX {
+                last = now;
+                idle = 0;
+                continue;
+            }
+            idle += 1;
+            if idle >= secs {
+                // where is the main thread? (gdb attaches to this process; function names only)
+                let bt = std::process::Command::new("gdb")
+                    .args(["-p", &std::process::id().to_string(), "-batch", "-ex", "thread 1", "-ex", "bt 40"])
+                    .output()
+                    .map(|o| String::from_utf8_lossy(&o.stdout).to_string())
+                    .unwrap_or_default();
+                let stack: Vec<String> = bt
+                    .lines()
+                    .filter(|l| l.starts_with('#'))
+                    .filter_map(|l| l.split(" in ").nth(1).or_else(|| l.split_whitespace().nth(1)))
+                    .map(|f| f.split(" (").next().unwrap_or("").split("::h").next().unwrap_or("").to_string())
+                    .take(14)
+                    .collect();
+                let site = if stack.iter().any(|f| f.starts_with("cassowary::")) {
+                    "cassowary"
+                } else if stack.is_empty() {
+                    "unknown"
+                } else {
+                    "other"
+                };
+                let rec = json!({"e":"hang","idx":CUR_SC.load(Relaxed),"w":CUR_W.load(Relaxed),"h":CUR_H.load(Relaxed),
+                    "frames":CUR_FRAMES.load(Relaxed),"secs":secs,"site":site,"stack":stack});
+                let _ = std::fs::write(&path, rec.to_string());
+                std::process::exit(3);
+            }
+        }
+    });
+}
+
 struct Shared {
     w: u16,
     h: u16,
@@ -31,6 +90,8 @@ struct Shared {
 
 impl Shared {
     fn resize(&mut self, w: u16, h: u16) {
+        CUR_W.store(u64::from(w), std::sync::atomic::Ordering::Relaxed);
+        CUR_H.store(u64::from(h), std::sync::atomic::Ordering::Relaxed);
         self.w = w;
         self.h = h;
         self.cells = vec![String::from(" "); usize::from(w) * usize::from(h)];
@@ -294,8 +355,24 @@ pub fn run(seed: u64, n: usize, family: &str, out: &str, stats_path: Option<&str
     let mut master = StdRng::seed_from_u64(seed ^ 0xc17);
     let scripts: Vec<Script> = if family.starts_with("script") { load_scripts(&std::env::var("VT_SCRIPTS").unwrap_or_default()) } else { Vec::new() };
     let n = if family.starts_with("script") { scripts.len() } else { n };
+    let skip: Vec<usize> = std::env::var("VT_SKIP").unwrap_or_default().split(',').filter_map(|x| x.parse().ok()).collect();
+    start_watchdog(out);
     for sc in 0..n {
         let s: u64 = master.random();
+        if skip.contains(&sc) {
+            continue;
+        }
+        CUR_SC.store(sc, std::sync::atomic::Ordering::Relaxed);
+        CUR_FRAMES.store(0, std::sync::atomic::Ordering::Relaxed);
+        tick_progress();
+        if std::env::var("VT_FAKE_HANG").ok().and_then(|x| x.parse::<usize>().ok()) == Some(sc) {
+            // self-test of the watchdog path: spin outside the layout solver
+            #[allow(clippy::empty_loop)]
+            loop {
+                std::hint::spin_loop();
+            }
+        }
+
         let mut rng = StdRng::seed_from_u64(s);
         let mut ntraces = if rng.random_range(0..4) == 0 { 2 } else { 1 };
         let mut strat = *[MultipathStrategy::Classic, MultipathStrategy::Paris, MultipathStrategy::Dublin].get(rng.random_range(0..3)).unwrap();
@@ -328,6 +405,17 @@ pub fn run(seed: u64, n: usize, family: &str, out: &str, stats_path: Option<&str
         if !plain && rng.random_bool(0.3) {
             argv.push("--tui-address-mode".into());
             argv.push((*["ip", "host", "both"].get(rng.random_range(0..3)).unwrap()).to_string());
+        }
+        if !plain && rng.random_bool(0.35) {
+            // GeoIp enabled with a database that knows none of the (private) hop addresses
+            argv.push("--geoip-mmdb-file".into());
+            argv.push("/nonexistent/GeoLite2-City.mmdb".into());
+            argv.push("--tui-geoip-mode".into());
+            argv.push((*["off", "short", "long", "location"].get(rng.random_range(0..4)).unwrap()).to_string());
+        }
+        if !plain && rng.random_bool(0.3) {
+            argv.push("--tui-as-mode".into());
+            argv.push((*["asn", "prefix", "country-code", "registry", "allocated", "name"].get(rng.random_range(0..6)).unwrap()).to_string());
         }
         if !plain && rng.random_bool(0.3) {
             argv.push("--tui-custom-columns".into());
@@ -391,6 +479,7 @@ pub fn run(seed: u64, n: usize, family: &str, out: &str, stats_path: Option<&str
             "first_ttl":first_ttl,"privacy0":privacy.map_or(-1, i64::from),"w":w0,"h":h0,"argv":argv}));
         let c1 = ctx.clone();
         let script = Box::new(move || -> Step {
+            tick_progress();
             let mut c = c1.borrow_mut();
             if c.script.is_some() {
                 let Ctx { script, gens, events, last_key, cur_trace, .. } = &mut *c;
@@ -490,6 +579,8 @@ pub fn run(seed: u64, n: usize, family: &str, out: &str, stats_path: Option<&str
         });
         let c2 = ctx.clone();
         let observer = Box::new(move |app: &TuiApp| {
+            tick_progress();
+            CUR_FRAMES.fetch_add(1, std::sync::atomic::Ordering::Relaxed);
             let mut c = c2.borrow_mut();
             let mut ev = frame_event(app, &c.sh.borrow(), &c.last_key);
             ev.as_object_mut().unwrap().insert("default_cols".into(), json!(c.default_cols));
@@ -518,6 +609,7 @@ pub fn run(seed: u64, n: usize, family: &str, out: &str, stats_path: Option<&str
         stats.push(json!({"id":format!("{family}-{seed}-{sc}"),"cell":format!("t{ntraces}-f{max_flows}-{strat:?}"),"shape":format!("{w0}x{h0}-p{privacy:?}-f{first_ttl}"),
             "delivered":{"genuine":nframes},"events":c.events.len(),"panicked":panicked}));
     }
+    CUR_SC.store(usize::MAX, std::sync::atomic::Ordering::Relaxed);
     f.flush().unwrap();
     if let Some(p) = stats_path {
         std::fs::write(p, serde_json::to_string(&stats).unwrap()).unwrap();
